@@ -82,6 +82,7 @@ structure Node where
   info : Nat → InfoDev := fun _ => {}
   prod : Msg := noMsg          -- the product information message (PGN 126996) the node answers with
   conf : Option Msg := none    -- the configuration information message (PGN 126998), if any was set
+  bamGap : Nat := 50           -- interval the BAM data-packet timer is re-armed with (the statement only says: at least 50 ms)
 
 def TpDev.init (f : Flavor) : TpDev := { pend := noMsg, nextSeq := 0, timer := Sched.disabled f, hasPending := false }
 
@@ -176,7 +177,7 @@ def pendingTP (n : Node) (i : Nat) : Node :=
   if t.pend.pgn ≠ 0 ∧ t.timer.isTime n.s.flavor n.s.now then
     if t.pend.dst = 0xff then
       let n1 := (sendTPDT n i).1
-      let n2 := setTimer n1 i 50
+      let n2 := setTimer n1 i n.bamGap
       if hasAllSent n2 i then endSendTP n2 i else n2
     else endSendTP n i
   else n
